@@ -875,6 +875,61 @@ fn exec_dec(prop: &str, spec: &DecSpec, source: &mut dyn OpSource) -> RunOut {
                 if spec.repl && run.had_errors != b.had_errors {
                     viols.push(viol("C10", "had-errors", format!("chunked {} vs BOM-free reference {}", run.had_errors, b.had_errors)));
                 }
+                // One more caller on the same stream: the crate's *own* pump
+                // (`Encoding::decode*`, the "non-streaming for_bom / starts_with
+                // based handling" named by the property), in the same BOM mode,
+                // judged by the same BOM model and BOM-free reference. Its
+                // schedule is its own; it is never used as an oracle.
+                if spec.repl {
+                    let own = crate::sink::guard(|| match spec.bom {
+                        Bom::Off => {
+                            let (t, h) = spec.enc.decode_without_bom_handling(&spec.stream);
+                            (t.into_owned(), None, h)
+                        }
+                        Bom::Remove => {
+                            let (t, h) = spec.enc.decode_with_bom_removal(&spec.stream);
+                            (t.into_owned(), None, h)
+                        }
+                        Bom::Sniff => {
+                            let (t, e, h) = spec.enc.decode(&spec.stream);
+                            (t.into_owned(), Some(e), h)
+                        }
+                    });
+                    match own {
+                        Ok((t, e, h)) => {
+                            let tc: Vec<char> = t.chars().collect();
+                            if let Some(d) = cmp_text(&tc, &b.text) {
+                                viols.push(viol("C10", "own-pump-bom-handling", format!("Encoding::decode* ({}) vs {} decode of stream[{}..] without BOM handling: {}", spec.bom.name(), eff.name(), bom_len, d)));
+                            }
+                            if let Some(e) = e {
+                                if e != eff {
+                                    viols.push(viol("C10", "own-pump-effective-encoding", format!("Encoding::decode reports {} but the stream calls for {}", e.name(), eff.name())));
+                                }
+                            }
+                            if h != b.had_errors {
+                                viols.push(viol("C10", "own-pump-had-errors", format!("Encoding::decode* reports had_errors = {}, BOM-free reference {}", h, b.had_errors)));
+                            }
+                        }
+                        Err(_) => viols.push(viol("C10", "own-pump-panicked", format!("Encoding::decode* panicked: {}", crate::sink::take_panic()))),
+                    }
+                } else if spec.bom == Bom::Off {
+                    match crate::sink::guard(|| spec.enc.decode_without_bom_handling_and_without_replacement(&spec.stream).map(|t| t.into_owned())) {
+                        Ok(None) => {
+                            if b.malformed.is_empty() {
+                                viols.push(viol("C10", "own-pump-bom-handling", "decode_without_bom_handling_and_without_replacement = None for a stream the streaming decoder accepts".to_string()));
+                            }
+                        }
+                        Ok(Some(t)) => {
+                            let tc: Vec<char> = t.chars().collect();
+                            if !b.malformed.is_empty() {
+                                viols.push(viol("C10", "own-pump-bom-handling", format!("decode_without_bom_handling_and_without_replacement = Some for a stream with malformed sequences at {:?}", b.malformed)));
+                            } else if let Some(d) = cmp_text(&tc, &b.text) {
+                                viols.push(viol("C10", "own-pump-bom-handling", format!("decode_without_bom_handling_and_without_replacement vs streaming without BOM handling: {}", d)));
+                            }
+                        }
+                        Err(_) => viols.push(viol("C10", "own-pump-panicked", format!("decode_without_bom_handling_and_without_replacement panicked: {}", crate::sink::take_panic()))),
+                    }
+                }
             }
         }
     }
